@@ -21,6 +21,15 @@ CLAIMS = {
  "C05": ("Lean 4 theorems (Props/C05.lean, 27): write_path_independent (single/double buffer, every size and threshold), patch_eq_serialize (for any checksum function), header/blob-header parse round-trips, load_roundtrip, crc_window + crc32c_detects_window (any alteration inside 4 adjacent bytes / 32 consecutive bits changes CRC-32C), load_checks, altered_never_served, altered_scan_rejected; the L5 byte model is tied to the code byte-exactly: length and CRC-32C of every blob file vs blobBytes of the model after every step, over all size classes around both thresholds; plus on-disk alteration sweeps read back through the API.",
          "4/C05", "bursts wider than 4 bytes are not generated (theorem covers 32 consecutive bits); metadata bytes are not checksummed by Pearl; u64 wrap-around excluded by InRange hypotheses",
          "Lean 4 proofs over the byte-level model (bincode layout, CRC-32C) + byte-exact correspondence + alteration sweep"),
+ "C07": ("Lean 4 theorems (apply_log: records of a blob only grow by appending; ids_never_reused_in_run in Props/C15.lean; L5 blobBytes append lemmas; Props/C07.lean over the event-emitting L6 model is in progress) + implementation-level oracles that do not depend on the model: byte snapshots of every blob file (work and corrupted dirs) after every step incl. restarts and quarantines (earlier content is a prefix or the file moved unchanged; new names carry ids above every id ever seen), tap-trace predicates (no blob write below the end of file, no create of an existing blob name), queries at quiescent points issue no file operation.",
+         "4/C07", "injected blob damage is applied by the harness between sessions (the reference snapshot follows it); after the first injected damage the model comparison is off and the Spec oracle follows the implementation probe",
+         "Lean 4 invariant proof (append-only log, fresh ids) + byte-snapshot and tap-trace oracles on the implementation"),
+ "C09": ("Lean 4 theorems (Props/C09.lean, 28): for every non-empty well-formed header map and every key length with fan-out >= 3 (K <= 2032) the index file built by the modelled serializer answers get_latest / find_by_key exactly like the in-memory vectors (ondisk_latest_eq, ondisk_all_eq, ondisk_eq_inmem), count_eq, load_build, plus leaf packing, window binary search, run collection across the buffer/file hand-over, portions, absolute layer offsets and descent (descent_finds_leaf). Tie: the L4 byte image of every index file (hash and filter section masked) is compared with the real file, and every look-up goes through the real file after settle; key lengths {1,4,8,33,128,1000}.",
+         "4/C09", "fan-out 2 (K in 2033..4039: debug-build underflow on a key-less node) and rhs > block (K >= 4040: stored keys missed) are outside the property range 1..1000 and recorded as observations with decide-witnesses",
+         "Lean 4 proof of the B+tree build/look-up model + byte-exact index-file correspondence"),
+ "C12": ("Tap-trace predicates on the implementation for every dirty-byte limit (header synced before the first record of a new blob; index header with written bit only after a sync of its blob covering blob_size, followed by the index's own sync; no un-synced bytes after explicit fsyncdata or close of the active blob; un-synced bytes <= limit at quiescence); Lean 4 L6 event model and Props/C12.lean theorems over all operation sequences are in progress (trace correspondence).",
+         "4/C12", "sync_all durability is the OS's promise; quiescence = worker queue drained and no blocking closure running; the window 'bytes acknowledged while a background sync is in flight' is examined by C08/C14 scenarios",
+         "Lean 4 proof over the file-operation trace model + tap-trace predicates on the implementation"),
  "C13": ("Lean 4 worker model (Model/Worker.lean, Props/C13.lean: worker_total, overflow_switches, rotation_continues, dumps_complete, close_terminates over every message sequence; the pre-fix loop is refuted on a concrete witness); the driver executes background calls through the proved processMsgFixed; correspondence drives all *_in_background calls in every active-blob state, then overflows the active blob past the debounce and closes; liveness oracle (worker alive, rotation happened, settle and close return).",
          "4/C13", "wall-clock time abstracted to lower bounds (explicit 260 ms waits > 200 ms debounce); nondeterministic early rotations are taken from the implementation transcript and checked for enabledness",
          "Lean 4 proof over the worker's message loop + correspondence"),
@@ -65,7 +74,7 @@ def main():
         }],
         "checks": checks,
         "not_applicable": na,
-        "notes": "fix: commits in /repo: 1b4de29 (C15 E1), c944800 (C04/C11 E2), 1a06a96 (C13 E3), 62e8e7f (C03 E4); see known_findings.json and DESIGN.md section 5",
+        "notes": "fix: commits in /repo: 1b4de29 (C15 E1), c944800 (C04/C11 E2), 1a06a96 (C13 E3), 62e8e7f (C03 E4), 2b9bef3 (C12 E13), 6bfe6df (C07/C03 E9); see known_findings.json and DESIGN.md section 5",
     }
     json.dump(m, open(os.path.join(ROOT, 'MANIFEST.json'), 'w'), indent=1)
 
